@@ -61,7 +61,14 @@ def PInvA (s : St) : Prop :=
 /-- the token held for `compWriteLocking` will be released by `compactionError` or by the `SetReadOnly`
 that took it; an internal transaction of `DB.Write` is always being finished by its thread -/
 def PInvB (s : St) : Prop :=
-  b2n s.ehTok ≤ perW s.eh + tot srW s.ws ∧ (s.ehTok = true → s.cwl = true)
+  b2n s.ehTok ≤ perW s.eh + tot srW s.ws ∧ (s.ehTok = true → s.cwl = true ∨ 0 < tot srW s.ws)
+
+/-- before 832d000: a `SetReadOnly` between its two `select`s has set `compWriteLocking` -/
+def CwlOk (cfg : Cfg) (s : St) : Prop :=
+  cfg.srSetsWriteLocking = true → 0 < tot srW s.ws → s.cwl = true
+
+/-- while the DB is open the accounting of the token is exact -/
+def OpenE (s : St) : Prop := s.closed = false → TokE s
 
 def PInvD (s : St) : Prop :=
   b2n (s.trOpen && !s.trUser) ≤ tot lgW s.ws
@@ -71,13 +78,13 @@ def PInvC (s : St) : Prop :=
   tot clAllW s.ws ≤ b2n s.closed ∧ b2n s.closeTok ≤ b2n s.closed ∧
   tot clPreW s.ws + b2n s.closeTok ≤ 1
 
-/-- `SetReadOnly`: while the DB is open, a thread between the two `select`s still has its token in
-`writeLockC`; once `compReadOnly` is set the machine is in (or past) `hasperr` with `ErrReadOnly`, and while the
+/-- `SetReadOnly`: while the DB is open, a thread between the two `select`s (there is at most one) still has its
+token in `writeLockC`; once `compReadOnly` is set the machine is in (or past) `hasperr` with `ErrReadOnly`, and while the
 DB is open the token stays in `writeLockC` -/
 def PInvE (s : St) : Prop :=
-  (s.closed = false → 0 < tot srW s.ws → s.ehTok = true) ∧
+  (s.closed = false → tot srW s.ws ≤ b2n s.ehTok) ∧
   (s.ro = true → s.ehErr = .readonly ∧ (s.eh = .hasperr ∨ s.eh = .closing ∨ s.eh = .exited)) ∧
-  (s.ro = true → s.closed = false → s.ehTok = true)
+  (s.ro = true → s.closed = false → s.ehTok = true ∧ tot srW s.ws = 0)
 
 
 end GoLevel.Locks
